@@ -40,6 +40,10 @@ def gen(r) -> Dict[str, Any]:
             t += r.choice([0, 0, 1, 2, 7])
             evs.append(t)
         sources.append({"events": evs, "producer": r.random() < 0.3})
+    if nsrc >= 2 and r.random() < 0.15:
+        j = r.randrange(1, nsrc)
+        sources[j]["alias_of"] = r.randrange(0, j)     # built from the same list object as an earlier source
+        sources[j]["events"] = list(sources[sources[j]["alias_of"]]["events"])
     subs: List[Dict[str, Any]] = []
     hid = 0
     order = list(range(nsrc + nder))
@@ -48,7 +52,8 @@ def gen(r) -> Dict[str, Any]:
         for _ in range(r.randint(1 if si >= nsrc else 0, 3)):
             hid += 1
             sub = {"kind": "h", "id": hid, "source": si, "steps": r.choice([0, 0, 1, 2, 4]), "bound": r.random() < 0.4,
-                   "fail_on": [n for n in range(8) if r.random() < 0.1], "push": []}
+                   "fail_on": [n for n in range(8) if r.random() < 0.1], "push": [],
+                   "plain": r.random() < 0.25, "sync_fail_on": [n for n in range(8) if r.random() < 0.15]}
             if nder and si < nsrc + nder:
                 for n in range(8):
                     if r.random() < 0.3:
